@@ -14,7 +14,8 @@ EXPLANATION = ("R15.1 every payload sent over a writer channel is control-by-con
                "resp. the unchanged chunk to State::write_buffer, whose table is mode-free; R15.4 pooled buffers of the async modes are cleared immediately before they return to the pool, whatever message they carried (shared with R03.3/R03.4). R15.3 also: in the async arm of plain_write every path sends the chunk exactly once and writes nothing past the channel. R15.5 the shutdown/flush tables of the file writer flush the active writer in every mode, with or without rotation (shared with R04.1)."
                " R15.6 (shared with R01.4): at a rotation the buffered tail reaches the closed file (writer swap) before the cleanup may compress / remove it, so buffered and direct modes leave the same bytes."
                " R15.7 write-mode wiring: Logger::write_mode stores without_flushing(mode) in the file writer's builder and keeps get_flush_interval(mode); the builder's mode reaches config.write_mode (shared configuration-wiring tables, rules/cfgwiring.py)."
-               " R15.8 (shared with R08.5/R18.3): FileLogWriter::reset opens nothing and reads no file length while the old state - whose buffer may hold bytes of the same file - is alive, so the rotation points after a reset do not depend on the write mode.")
+               " R15.8 (shared with R08.5/R18.3): FileLogWriter::reset opens nothing and reads no file length while the old state - whose buffer may hold bytes of the same file - is alive, so the rotation points after a reset do not depend on the write mode."
+               " R15.9 (shared with R03.2): every record-emitting body - the stdout/stderr duplicates included, which share the thread-local buffer with the synchronous file modes - leaves that buffer empty on every path.")
 ASSUMPTIONS = ["BufWriter does not alter bytes (std)", "C04 for what is flushed at shutdown"]
 NOT_DECIDED = ["equality of final file contents across modes as such (follows from R15.1-3 + C04 only with BufWriter semantics)"]
 FLOORS = {'R15.1': 4, 'R15.2': 30, 'R15.3': 3}
@@ -66,6 +67,13 @@ def run(R, ctx):
     R.rule('R15.8', 'reset opens nothing and reads no file length before the old state (and its buffer) is gone (shared with R08.5/R18.3)')
     import c08 as _c08
     _c08.reset_seeding(R, ctx, 'R15.8')
+    # the synchronous file modes format into the SAME thread-local buffer as the stdout/stderr duplicates (util::write_buffered); the async mode uses pooled
+    # buffers.  A path of ANY record-emitting body that leaves bytes in the thread-local buffer (e.g. an early return after a failed duplicate write)
+    # glues them in front of the next file record in the synchronous modes only: emission tables of every LogWriter::write (shared with R03.2)
+    R.rule('R15.9', 'every emitting body leaves the shared thread-local buffer empty on every path, duplicates included (shared with R03.2)')
+    roots = [p_ for p_ in ctx.f.bodies if p_.endswith('as writers::log_writer::LogWriter>::write') and ctx.f.bodies[p_].promoted is None]
+    only = r'^util::write_buffered::\{closure#0\}$|StdWriter as writers::log_writer::LogWriter>::write$|^writers::file_log_writer::state_handle::'
+    c01.emission(R, ctx, 'R15.9', roots=roots, le_pattern=r"line_ending|b'\\n'", only=only)
     if ctx.has('async'):
         payloads(R, ctx)
         # pooled buffers: what the async arm formats into must be empty - a buffer returned to the pool uncleared (e.g. a processed
